@@ -11,7 +11,8 @@ Local Open Scope Z_scope.
    state are unchanged (an empty account may have been created for the receiver; it is
    indistinguishable from an absent one in every query).  Hypotheses: the Go types' ranges, a
    governance gas price below 2^192, and for withdrawals that balance + withdrawable reward does
-   not exceed 2^256 (discharged by the supply bound of C02). *)
+   not exceed 2^256 (for the states of a run from a genesis none of the three is needed: see
+   C05_holds_closed below, which assumes only what the environment supplies). *)
 Theorem C05_holds : forall s t s' e,
   tx_wf t -> payload_wf t -> params_ok (gparams s) -> ranges_ok (work s) ->
   reward_headroom (work s) (t_from t) ->
@@ -46,3 +47,54 @@ Theorem C05_headroom_needed :
     deliver s t = (s', Err e) /\ ~ same_obs (work s) (work s').
 Proof. exact deliver_fail_no_effect_refuted_headroom. Qed.
 Print Assumptions C05_headroom_needed.
+
+(* the history form: in EVERY state of a run from a well-formed genesis document (parameters in
+   range, at most one validator, powers in the int64 range, balances in the uint256 range) over a
+   well-bracketed operation list ([bracketed] carries tx_wf, payload kind, parse flag and parameter
+   documents that keep parameters well formed) whose staking transactions carry pairwise distinct
+   non-zero hashes, whose withdrawal requests are uint256 with no EVM execution ([txs_ok]), and
+   whose genesis supply + requested withdrawals stay below 2^63 RIGO, a failed delivery of ANY
+   transaction in the Go ranges has no effect.  Nothing is assumed about the state: params_ok and
+   ranges_ok are proved for it, and [reward_headroom] is not needed at all -- an executed
+   withdrawal has a request below 2^255 (AddBalance refuses amounts with bit 255 set and the
+   reward update is then cancelled) and every balance of such a state is below 2^63 RIGO. *)
+From Rigo Require InvStake InvSupply InvPanic InvReach InvClosed.
+Theorem C05_holds_closed : forall g ops pre post t s' e,
+  (params_ok (gen_params g) /\ (length (gen_validators g) <= 1)%nat /\
+   Forall (fun v : addr * Z => 0 <= v.2 < two63) (gen_validators g) /\
+   Forall (fun h : addr * Z => 0 <= h.2 < two256) (gen_holders g)) ->
+  InvPanic.bracketed InvPanic.Idle 0 ops ->
+  NoDup (0%N :: InvReach.stake_hashes ops) ->
+  InvSupply.txs_ok ops ->
+  supply (work (init_chain g)) + InvReach.requested ops < InvSupply.supply_bound ->
+  ops = pre ++ post ->
+  tx_wf t -> payload_wf t ->
+  let s := srun (init_chain g) pre in
+  deliver s t = (s', Err e) -> same_obs (work s) (work s') /\ same_ctl s s'.
+Proof. exact InvClosed.C05_closed_along. Qed.
+Print Assumptions C05_holds_closed.
+
+(* the same for the state after the whole list *)
+Theorem C05_holds_closed_end : forall g ops t s' e,
+  (params_ok (gen_params g) /\ (length (gen_validators g) <= 1)%nat /\
+   Forall (fun v : addr * Z => 0 <= v.2 < two63) (gen_validators g) /\
+   Forall (fun h : addr * Z => 0 <= h.2 < two256) (gen_holders g)) ->
+  InvPanic.bracketed InvPanic.Idle 0 ops ->
+  NoDup (0%N :: InvReach.stake_hashes ops) ->
+  InvSupply.txs_ok ops ->
+  supply (work (init_chain g)) + InvReach.requested ops < InvSupply.supply_bound ->
+  tx_wf t -> payload_wf t ->
+  let s := srun (init_chain g) ops in
+  deliver s t = (s', Err e) -> same_obs (work s) (work s') /\ same_ctl s s'.
+Proof. exact InvClosed.C05_closed. Qed.
+Print Assumptions C05_holds_closed_end.
+
+(* the per-state statement it rests on: C05_holds with [reward_headroom] replaced by "the sender's
+   balance is below 2^255" *)
+Theorem C05_holds_small_balance : forall s t s' e,
+  0 <= t_amount t -> 0 <= t_gas t -> 0 <= g_gasPrice (gparams s) < 2 ^ 192 ->
+  (forall x, accts (work s) !! t_from t = Some x -> a_bal x < two255) ->
+  payload_wf t ->
+  deliver s t = (s', Err e) -> same_obs (work s) (work s') /\ same_ctl s s'.
+Proof. exact InvClosed.deliver_fail_no_effect_small. Qed.
+Print Assumptions C05_holds_small_balance.
